@@ -5,7 +5,7 @@
    order, target last), NewHasherReaders (TeeReader), FileHash.Verifier, FileHashFromHasher, the parsing of
    checksum lines and the best-checksum selector. *)
 From Coq Require Import List Ascii String Bool Arith ZArith Lia.
-Require Import GS H12 H13 H14.
+Require Import GS H12 H13 H14 HIST.
 Import ListNotations.
 
 Section C12.
@@ -53,6 +53,15 @@ Section C12.
     forall chunks', verify H (from_hasher H hex_encode path h) chunks' = Accept <->
                     H (h_alg h) (List.concat chunks') = H (h_alg h) (List.concat chunks).
   Proof. exact (C12_from_hasher H). Qed.
+
+  (* a hasher read in mid-stream reports the length and digest of the bytes written so far; writing on gives the
+     state of the whole stream *)
+  Theorem C12_read_in_mid_stream : forall names c1 c2 st1, run_writers names c1 = Some st1 ->
+    exists st2, run_writers names (c1 ++ c2) = Some st2 /\
+      w_target st1 = List.concat c1 /\ w_target st2 = List.concat (c1 ++ c2) /\
+      Forall2 (fun n h => h_size h = Z.of_nat (List.length (List.concat c1)) /\ hasher_sum H h = H (h_alg h) (List.concat c1)) names (w_hashers st1) /\
+      Forall2 (fun n h => h_size h = Z.of_nat (List.length (List.concat (c1 ++ c2))) /\ hasher_sum H h = H (h_alg h) (List.concat (c1 ++ c2))) names (w_hashers st2).
+  Proof. exact (HIST.C12_mid_stream H). Qed.
 End C12.
 (* the same with the hexadecimal law discharged for the lower-case encoder the library uses (fmt "%x") *)
 Theorem C12_entry_from_hasher_lowercase_hex : forall H names chunks st h path, run_writers names chunks = Some st -> In h (w_hashers st) ->
